@@ -60,8 +60,29 @@ pub struct Verdict {
     pub delivered: usize,
 }
 
-/// The oracle: compares rspirv's parse of `bytes` with the reference parser.
+/// The oracle: compares rspirv's parse of `bytes` with the reference parser. When an id is declared
+/// more than once the statement does not say which declaration decides a literal's width: the
+/// parser must then agree with one reading applied consistently to the whole binary (the latest
+/// preceding declaration - the model's default - or the first).
 pub fn check_bytes(bytes: &[u8], st: &mut Stats, decoded: &dyn Fn() -> String) -> Result<Verdict, Fail> {
+    match check_bytes_one(bytes, st, decoded) {
+        Ok(v) => Ok(v),
+        Err(f) => {
+            if !ref_parse(bytes).redefined_id {
+                return Err(f);
+            }
+            match with_first_wins(|| check_bytes_one(bytes, &mut Stats::new(), decoded)) {
+                Ok(v) => {
+                    st.count("redeclared_id_consistent_with_first_declaration_only");
+                    Ok(v)
+                }
+                Err(_) => Err(f),
+            }
+        }
+    }
+}
+
+fn check_bytes_one(bytes: &[u8], st: &mut Stats, decoded: &dyn Fn() -> String) -> Result<Verdict, Fail> {
     let rp = ref_parse(bytes);
     let (c, r) = parse_bytes_collect(bytes).map_err(|f| f.with_decoded(decoded()))?;
     let fail = |clause: &str, disc: String, msg: String| -> Fail {
@@ -85,7 +106,7 @@ pub fn check_bytes(bytes: &[u8], st: &mut Stats, decoded: &dyn Fn() -> String) -
     match &rp.header {
         Err(hf) => {
             let got = r.as_ref().err().map(classify);
-            let ok = matches!(&got, Some((Class::Header(h), _, _)) if h == hf);
+            let ok = matches!(&got, Some((Class::Header(h), _, _)) if h == hf || Some(h) == rp.header_alt.as_ref());
             if !ok {
                 return Err(fail(
                     "header-verdict",
